@@ -728,12 +728,23 @@ def rule_builders(ctx):
             if b.crate != crate or "::filter::" not in b.path or b.kind != "AssocFn" or b.name not in ("source_only", "destination_only", "any_port"):
                 continue
             got = {}
+            SB = None
             for i, j, s in b.iter_stmts():
                 if s["k"] == "assign" and s["p"]["pr"] and s["r"]["k"] == "use" and "k" in s["r"]["o"]:
                     names = [x.get("n") for x in s["p"]["pr"] if isinstance(x, dict) and x.get("n")]
                     v = T.const_value(s["r"]["o"]["k"])[1]
                     if names and isinstance(v, bool):
                         got[names[-1]] = v
+                elif s["k"] == "assign" and s["p"]["pr"] and s["r"]["k"] == "use":
+                    # the constant reaches the field through a local, a tuple (`(self.a, self.b) = (x, y)`) or the argument of a
+                    # private helper written out at its call
+                    names = [x.get("n") for x in s["p"]["pr"] if isinstance(x, dict) and x.get("n")]
+                    if names and names[-1] in ("check_source", "check_destination", "match_any"):
+                        if SB is None:
+                            SB = T.Slicer(b, P)
+                        v = T.strip(SB.rvalue(s["r"], i, j))
+                        if v[0] == "const" and isinstance(v[1], bool):
+                            got[names[-1]] = v[1]
                 # struct-update spelling: `Self { check_source: true, check_destination: false, ..self }` - the constant fields of the
                 # rebuilt value (the others are moved over from self)
                 if s["k"] == "assign" and s["r"]["k"] == "agg" and s["r"].get("ak") == "adt" and s["r"].get("fields") and \
